@@ -14,9 +14,9 @@ T=$(cargo test --workspace --no-fail-fast --offline 2>&1);
 suite=$(echo "$T" | grep -E "^test result" | head -2 | tr '\n' ' ')
 suite_ok=$(echo "$T" | grep -E "^test result" | grep -vc "ok\.")
 mkdir -p tests; cp "$D/demo.rs" tests/seed_demo.rs
-cargo test --offline --test seed_demo >/tmp/confirm.with.log 2>&1; with=$?
+FEAT=$(head -1 "$D/demo.rs" | grep -o -- "--features [A-Za-z,_]*"); cargo test --offline $FEAT --test seed_demo >/tmp/confirm.with.log 2>&1; with=$?
 git apply -R "$D/patch.diff"
-cargo test --offline --test seed_demo >/tmp/confirm.without.log 2>&1; without=$?
+cargo test --offline $FEAT --test seed_demo >/tmp/confirm.without.log 2>&1; without=$?
 rm -f tests/seed_demo.rs; rmdir tests 2>/dev/null; git checkout -- .
 echo "CONFIRM $(basename $D): suite_failures_with_change=$suite_ok [$suite] demo_with_change_exit=$with demo_without_change_exit=$without"
 [ "$suite_ok" = "0" ] && [ $with -ne 0 ] && [ $without -eq 0 ]
